@@ -461,7 +461,14 @@ func c12LemmaJob(tier string) *SeqJob {
 					return
 				}
 				_, overhead = m3.VerifBudget(r)
-				m3.VerifSetSeqID(r, math.MaxInt32-1)
+				// the sequence id is an int32 that wraps: the largest one for most batch sizes, negative ones as well
+				seqID := int32(math.MaxInt32 - 1)
+				if k == 14 {
+					seqID = -3
+				} else if k == 16 {
+					seqID = math.MinInt32
+				}
+				m3.VerifSetSeqID(r, seqID)
 				var report func()
 				switch kind {
 				case "counter":
@@ -643,7 +650,7 @@ func c12Scenarios(tier string) []*Scenario {
 	sc.Check = func(x *Run, o *rt.Outcome) (string, string, string) { return "", "", "ok" }
 	// K2: two reporters of one process (same protocol) allocate at the same time: what one charges must not depend
 	// on the other (nothing the size measurement uses may be shared between reporters under a per-reporter lock)
-	sc2 := &Scenario{Property: "C12", Name: "K2-two-reporters-allocate-concurrently", Ticks: 0, AllowLeak: true, BoundSet: true, Bound: tierInt(tier, 1, 2), FreeBound: tierInt(tier, 2, 3), Shards: 4}
+	sc2 := &Scenario{Property: "C12", Name: "K2-two-reporters-allocate-concurrently", Ticks: 0, AllowLeak: true, BoundSet: true, Bound: tierInt(tier, 1, 2), FreeBound: tierInt(tier, 1, 2), Shards: 4}
 	sc2.Body = func(x *Run) {
 		var rs []m3.Reporter
 		for i := 0; i < 2; i++ {
@@ -655,6 +662,9 @@ func c12Scenarios(tier string) []*Scenario {
 				return
 			}
 			rs = append(rs, r)
+			// let the new reporter's goroutines run up to their first wait (otherwise every step of the next
+			// constructor is a point at which they could be scheduled, to no effect on the allocations)
+			rt.GoNamed("idle", func() {}).Join()
 		}
 		names := []string{strings.Repeat("a", 40), strings.Repeat("b", 300)}
 		tags := []map[string]string{{"k": "v"}, c12Tags(6)}
@@ -673,8 +683,8 @@ func c12Scenarios(tier string) []*Scenario {
 			if want := m3.VerifChargedSize(rs[i].AllocateCounter(names[i], tags[i])); got[i] != want {
 				x.failf("charged-size-depends-on-concurrent-allocation", "reporter %d of two: charged %d bytes while the other reporter was allocating, %d when allocating alone", i, got[i], want)
 			}
-			_ = rs[i].Close()
 		}
+		// (the reporters are left open: their goroutines end with the execution)
 	}
 	sc2.Check = func(x *Run, o *rt.Outcome) (string, string, string) { return "", "", "ok" }
 	return []*Scenario{sc, sc2}
